@@ -26,6 +26,10 @@ type Case struct {
 	DrainEvery int `json:"drain_every,omitempty"`
 	// ClockBase: first stamp of the virtual clock (0 = 1e6; realistic UnixNano values lie beyond 2^53)
 	ClockBase int64 `json:"clock_base,omitempty"`
+	// MirrorClock: what B's wall clock shows relative to A's while B receives (nanoseconds;
+	// negative = B's clock is behind). Stamps are the origin's business: what a receiver lists
+	// must not depend on its own clock
+	MirrorClock int64 `json:"mirror_clock,omitempty"`
 }
 
 func run(c Case) (msg string, nontrivial bool) {
@@ -80,7 +84,12 @@ func run(c Case) (msg string, nontrivial bool) {
 			for _, e := range es {
 				named[e.Kind+":"+e.Key] = true
 			}
+			dst.SetNow(clock + c.MirrorClock)
 			b.Deliver(m)
+			dst.SetNow(clock)
+		}
+		if c.MirrorClock != 0 && len(msgs) > 0 {
+			nontrivial = true
 		}
 		va, vb := dst.ViewOf(a), dst.ViewOf(b)
 		if d := dst.Diff("A", va, "model", sem.View()); d != "" {
@@ -138,6 +147,10 @@ func TestRandom(t *testing.T) {
 		}
 		c.DrainEvery = rapid.SampledFrom([]int{1, 1, 2, 3, 5, 1000}).Draw(t, "drainEvery")
 		c.ClockBase = rapid.SampledFrom(dst.ClockBases).Draw(t, "clockBase")
+		if c.ClockBase > 1e18 {
+			const minute = int64(60e9)
+			c.MirrorClock = rapid.SampledFrom([]int64{0, 0, 0, -4 * minute, -6 * minute, -120 * minute, 120 * minute, -30 * 24 * 60 * minute, 1500}).Draw(t, "mirrorClock")
+		}
 		check(t, c)
 	})
 }
